@@ -400,6 +400,15 @@ def _check_wrapping(ctx, repo, outer):
         ctx.ob("C15-R5", f.fq, "under isinstance(z, KGFn) the callback is bound to the re-resolving wrapper", wrapped, node=c, construct="KGFn callback wrapped")
 
 
+# functions whose mechanical mutants are swept in the thorough tier (coverage evidence, see sa/mutate.py)
+MUTATION_SCOPE = ['sys_fn_timer:KGTimerHandler.__init__',
+                  'sys_fn_timer:KGTimerHandler.cancel',
+                  'sys_fn_timer:_call_periodic',
+                  'sys_fn_timer:_call_periodic.run',
+                  'sys_fn_timer:eval_sys_fn_timer',
+                  'sys_fn_timer:eval_sys_fn_cancel_timer',
+                  'types:KGFnWrapper.__call__']
+
 SEEDS = [
     Seed("drop-cancel-check", "fault", MOD, "        if r and handle.delegate is not None:", "        if r:", rule="C15-R1"),
     Seed("check-before-callback", "fault", MOD, "        r = fn()\n        # the callback may have cancelled this timer (delegate is None then)\n        if r and handle.delegate is not None:",
